@@ -581,6 +581,17 @@ impl Group for C13 {
                         at: i,
                     });
                 }
+                // `self.height - 1` at height 0 (deep reorgs allowed, empty window): overflow check of the debug
+                // build; a release build refuses the request with OrphanBlock — modelled, not a violation
+                let h0_underflow = kind == "remove" && before.starts_with("h=0 ") && res.contains("subtract with overflow");
+                if h0_underflow { co.tags.insert("remove:panic:height0-underflow".into()); }
+                if (kind == "add" || kind == "remove") && !h0_underflow {
+                    co.violations.push(Violation {
+                        kind: "tracker-abort".into(),
+                        desc: format!("{} panicked inside the implementation instead of returning a refusal: {}", kind, res),
+                        at: i,
+                    });
+                }
                 co.out.push("panic".into());
                 continue;
             }
